@@ -385,9 +385,10 @@ package tcell
 
 // SGR (1006) report: (ESC [ | 0x9b) < B ; X ; Y (M|m), each field an optional '-' followed by decimal digits.
 // Ghost positions: hd = index of '<', s1/s2 = indices of the two ';', fs = start of the field being read.
-// dec is the value of a digit run; sval adds the sign.  (Math integers: fields beyond 18 digits would overflow int.)
+// dec is the value of a digit run, saturating once it has passed 2^30 (the parser stops accumulating there, so that no
+// field can overflow int; any such coordinate is far beyond the screen and clipped); sval adds the sign.
 
-//@ spec rec dec(b []byte, lo int, hi int) int = hi <= lo ? 0 : dec(b, lo, hi-1)*10 + (int(b[hi-1]) - '0')
+//@ spec rec dec(b []byte, lo int, hi int) int = hi <= lo ? 0 : (dec(b, lo, hi-1) >= 1073741824 ? dec(b, lo, hi-1) : dec(b, lo, hi-1)*10 + (int(b[hi-1]) - '0'))
 //@ pred isdig(c byte) = '0' <= c && c <= '9'
 //@ pred sgrHdr(b []byte, h int) = (h == 2 && b[0] == 0x1b && b[1] == '[' && b[2] == '<') || (h == 1 && b[0] == 0x9b && b[1] == '<')
 //@ pred digitsIn(b []byte, lo int, hi int) = forall p int :: lo <= p && p < hi ==> isdig(b[p])
